@@ -16,6 +16,7 @@ def run(ctx):
     # Tier B: PoolMonitor.tla (refcount + spin bit word, lazy lock attachment from a pool; releasing on a stale count must fail)
     vlib.model_check_many(ctx, [dict(module_rel="sync/PoolMonitor.tla", cfg_rel="sync/PoolMonitor_q.cfg" if ctx.quick() else "sync/PoolMonitor_t.cfg", workers=6, timeout=3000),
                                 dict(module_rel="sync/PoolMonitor.tla", cfg_rel="sync/PoolMonitor_bad_early.cfg", workers=2, expect_violation="Safe"),
+                                dict(module_rel="sync/PoolMonitor.tla", cfg_rel="sync/PoolMonitor_bad_clearlate.cfg", workers=2, expect_violation="Safe"),      # seeded change C22
                                 dict(module_rel="sync/ReentrantSpin.tla", cfg_rel="sync/ReentrantSpin_q.cfg", workers=4),
                                 dict(module_rel="sync/ReentrantSpin.tla", cfg_rel="sync/ReentrantSpin_bad_order.cfg", workers=2, expect_violation="Safe"),
                                 dict(module_rel="sync/ReentrantSpin.tla", cfg_rel="sync/ReentrantSpin_bad_exchange.cfg", workers=2, expect_violation="Safe")], par=5)      # seeded change C22b
